@@ -167,6 +167,12 @@ def run(ctx):
               for i, (b, t, n, g) in enumerate([(1, 0, 4000, 8), (1, 2, 4000, 8), (2, 2, 6000, 16), (3, 0, 3000, 4)] * ctx.pick(2, 10))]
     harness_errors += register(ctx, ctx.run_cases(binary, "mapconc", ccases, name="mapconc", timeout_ms=120000), ccases)
 
+    # long pointer tables: hundreds to thousands of items with pointers of 1, 2, 3 and 4 bytes
+    bcases = [{"id": i, "n": n, "size": size, "offset": off}
+              for i, (n, size, off) in enumerate([(200, 1, 0), (400, 3, 7), (1000, 40, 0), (2000, 40, 42), (342, 200, 0),
+                                                  (341, 200, 0), (3000, 30, 1), (700, 25000, 0), (5000, 4, 0)])]
+    harness_errors += register(ctx, ctx.run_cases(binary, "bytesbig", bcases, name="bytesbig", timeout_ms=120000), bcases)
+
     ctx.traces_validated = len(hist) + len(seqs) + len(strs)
     ctx.extra_cov["behaviours_kv"] = len(hist)
     ctx.extra_cov["behaviours_int_sequences"] = len(seqs)
